@@ -296,6 +296,9 @@ structure GInv (w : WFQ Rat) : Prop where
   /-- the start tag of a chunk is at most max(tag of its predecessor, virtual time) -/
   cu : ∀ s l1 c1 f1 c2 f2 l2, w.sq s = l1 ++ (c1, f1) :: (c2, f2) :: l2 →
     f2 - (c2.len : Rat) / wt w s ≤ max f1 w.vtime
+  /-- … and at least the tag of its predecessor -/
+  cl : ∀ s l1 c1 f1 c2 f2 l2, w.sq s = l1 ++ (c1, f1) :: (c2, f2) :: l2 →
+    f1 ≤ f2 - (c2.len : Rat) / wt w s
 
 theorem ginv_new (ws : AMap Nat) : GInv (WFQ.new ws : WFQ Rat) := by
   have hsq : ∀ s, (WFQ.new ws : WFQ Rat).sq s = [] := fun s => by simp [sq, WFQ.new]
@@ -303,7 +306,8 @@ theorem ginv_new (ws : AMap Nat) : GInv (WFQ.new ws : WFQ Rat) := by
   have hv : (WFQ.new ws : WFQ Rat).vtime = 0 := by simp [WFQ.new, Num.ofNat]
   refine ⟨by rw [hv], fun s => by rw [hsq]; simp, fun s x hx => by rw [hsq] at hx; simp at hx,
     fun s l x h => by rw [hsq] at h; simp at h, fun s _ => by rw [hfin, hv],
-    fun s c f tl h => by rw [hsq] at h; simp at h, fun s l1 c1 f1 c2 f2 l2 h => by rw [hsq] at h; simp at h⟩
+    fun s c f tl h => by rw [hsq] at h; simp at h, fun s l1 c1 f1 c2 f2 l2 h => by rw [hsq] at h; simp at h,
+    fun s l1 c1 f1 c2 f2 l2 h => by rw [hsq] at h; simp at h⟩
 
 theorem div_wt_nonneg (w : WFQ Rat) (n : Nat) (s : Nat) : 0 ≤ (n : Rat) / wt w s :=
   div_nonneg (by exact_mod_cast Nat.zero_le n) (le_of_lt (wt_pos w s))
@@ -328,12 +332,13 @@ theorem ginv_step {w w' : WFQ Rat} {o : Op} {po : List Chunk} (h : GInv w) (hs :
   have same : (∀ s, w'.sq s = w.sq s) → (∀ s, w'.fin s = w.fin s) → w'.vtime = w.vtime → GInv w' := by
     intro hsq hfin hv
     refine ⟨by rw [hv]; exact h.v0, fun s => by rw [hsq]; exact h.t1 s, fun s x hx => ?_, fun s l x hl => ?_,
-      fun s hs' => ?_, fun s c f tl hq => ?_, fun s l1 c1 f1 c2 f2 l2 hq => ?_⟩
+      fun s hs' => ?_, fun s c f tl hq => ?_, fun s l1 c1 f1 c2 f2 l2 hq => ?_, fun s l1 c1 f1 c2 f2 l2 hq => ?_⟩
     · rw [hsq] at hx; rw [hfin]; exact h.t2 s x hx
     · rw [hsq] at hl; rw [hfin]; exact h.t2l s l x hl
     · rw [hsq] at hs'; rw [hfin, hv]; exact h.t3 s hs'
     · rw [hsq] at hq; rw [hwt', hv]; exact h.a s c f tl hq
     · rw [hsq] at hq; rw [hwt', hv]; exact h.cu s l1 c1 f1 c2 f2 l2 hq
+    · rw [hsq] at hq; rw [hwt']; exact h.cl s l1 c1 f1 c2 f2 l2 hq
   cases o with
   | rawPop c => obtain ⟨_, hsq, hfin, hv, _⟩ := hs; exact same hsq hfin hv
   | popNil => obtain ⟨_, hsq, hfin, hv, _⟩ := hs; exact same hsq hfin hv
@@ -345,7 +350,7 @@ theorem ginv_step {w w' : WFQ Rat} {o : Op} {po : List Chunk} (h : GInv w) (hs :
     have hTge : w.fin c.sid ≤ pushTag w c := by
       rw [hT]; have := div_wt_nonneg w c.len c.sid; have := le_max_right w.vtime (w.fin c.sid); linarith
     refine ⟨by rw [hv]; exact h.v0, fun s => ?_, fun s x hx => ?_, fun s l x hl => ?_, fun s hs' => ?_,
-      fun s c' f tl hq => ?_, fun s l1 c1 f1 c2 f2 l2 hq => ?_⟩
+      fun s c' f tl hq => ?_, fun s l1 c1 f1 c2 f2 l2 hq => ?_, fun s l1 c1 f1 c2 f2 l2 hq => ?_⟩
     · rw [hsq]; split
       · rename_i hsc; subst hsc
         refine List.pairwise_append.mpr ⟨h.t1 _, by simp, ?_⟩
@@ -389,12 +394,23 @@ theorem ginv_step {w w' : WFQ Rat} {o : Op} {po : List Chunk} (h : GInv w) (hs :
           rw [hT, hf1, max_comm]; linarith
         · exact h.cu _ l1 c1 f1 c2 f2 l2' hl
       · exact h.cu s l1 c1 f1 c2 f2 l2 hq
+    · rw [hwt']; rw [hsq] at hq; split at hq
+      · rename_i hsc; subst hsc
+        rcases last_of_append_cons hq with ⟨_, hx, hl⟩ | ⟨l2', _, hl⟩
+        · simp only [Prod.mk.injEq] at hx
+          obtain ⟨rfl, rfl⟩ := hx
+          have hf1 := h.t2l _ _ _ hl
+          simp only at hf1
+          have := le_max_right w.vtime (w.fin c.sid)
+          rw [hT, ← hf1]; linarith
+        · exact h.cl _ l1 c1 f1 c2 f2 l2' hl
+      · exact h.cl s l1 c1 f1 c2 f2 l2 hq
   | pop =>
     rcases hs with ⟨_, hsq, hfin, hv, _⟩ | ⟨s0, c, f, tl, hq0, _, _, _, _, hsq, hfin, hv, _⟩
     · exact same hsq hfin hv
     · have hVle : w.vtime ≤ w'.vtime := by rw [hv]; exact le_max_left _ _
       refine ⟨le_trans h.v0 hVle, fun s => ?_, fun s x hx => ?_, fun s l x hl => ?_, fun s hs' => ?_,
-        fun s c' f' tl' hq => ?_, fun s l1 c1 f1 c2 f2 l2 hq => ?_⟩
+        fun s c' f' tl' hq => ?_, fun s l1 c1 f1 c2 f2 l2 hq => ?_, fun s l1 c1 f1 c2 f2 l2 hq => ?_⟩
       · rw [hsq]; split
         · rename_i hsc; subst hsc
           have := h.t1 s; rw [hq0] at this; exact (List.pairwise_cons.mp this).2
@@ -420,6 +436,10 @@ theorem ginv_step {w w' : WFQ Rat} {o : Op} {po : List Chunk} (h : GInv w) (hs :
           have := h.cu s ((c, f) :: l1) c1 f1 c2 f2 l2 (by rw [hq0, hq]; simp)
           exact le_trans this (max_le_max (le_refl _) hVle)
         · exact le_trans (h.cu s l1 c1 f1 c2 f2 l2 hq) (max_le_max (le_refl _) hVle)
+      · rw [hwt']; rw [hsq] at hq; split at hq
+        · rename_i hsc; subst hsc
+          exact h.cl s ((c, f) :: l1) c1 f1 c2 f2 l2 (by rw [hq0, hq]; simp)
+        · exact h.cl s l1 c1 f1 c2 f2 l2 hq
 
 end WFQ
 end PendQ
